@@ -213,7 +213,9 @@ func genNode(quick bool, emit func(Data)) {
 func genUnintKey(emit func(Data)) {
 	keys := []string{"source", "source_ref", "source:ref", "history", "attribution", "created_by",
 		"tiger:county", "tiger:tlid", "tiger:upload_uuid",
-		"Source", "source:date", "tiger:reviewed", "created-by", "note", ""}
+		"Source", "source:date", "tiger:reviewed", "created-by", "note", "",
+		// boundary audit: near misses by whitespace, case and bare prefix
+		" source", "source ", "SOURCE", "tiger:", "source:", "tiger:upload_uuid "}
 	for _, k := range keys {
 		for _, second := range []string{"", "created_by", "name"} {
 			tags := []Tag{{k, "v"}}
@@ -774,7 +776,7 @@ func reverseNodes(n []DNode) {
 // tags and metadata stay): ids of 2^40 and above do not fit the ref bits of the
 // packed osm.FeatureID / ElementID, a feature must carry the element's own id.
 func shifted(d Data, off int64) Data {
-	o := Data{Name: d.Name + fmt.Sprintf("/ids+%d", off), Family: d.Family}
+	o := Data{Name: d.Name + fmt.Sprintf("/ids+%d", off), Family: d.Family, Extras: d.Extras}
 	for _, n := range d.Nodes {
 		n.ID += off
 		o.Nodes = append(o.Nodes, n)
@@ -807,9 +809,21 @@ func enumerate(quick bool) []Data {
 	k := 0
 	emit := func(d Data) {
 		out = append(out, d)
+		k++
 		// every 9th data set of every family once more with ids beyond 40 bits
-		if k++; k%9 == 0 {
+		if k%9 == 0 {
 			out = append(out, shifted(d, 1<<40+1<<33))
+		}
+		// boundary audit: every 8th data set once more with one of the id ranges
+		// of idShifts, every 6th with one of the coordinate maps of coordMaps
+		// (both in rotation, so every family meets every range and every map)
+		if k%8 == 3 {
+			sh := idShifts[(k/8)%len(idShifts)]
+			out = append(out, shiftedByKind(d, sh))
+		}
+		if k%6 == 1 {
+			cm := coordMaps[(k/6)%len(coordMaps)]
+			out = append(out, recoord(d, cm))
 		}
 	}
 	genNode(quick, emit)
@@ -822,5 +836,546 @@ func enumerate(quick bool) []Data {
 	genOther(emit)
 	genNested(quick, emit)
 	genMixed(quick, emit)
+	genMetaValues(emit)
+	genStrings(emit)
+	genDegenerate(emit)
+	genOriented(emit)
+	genLong(quick, emit)
+	out = append(out, extremeIDs()...) // not through emit: these ids cannot be shifted
 	return out
+}
+
+// extremeIDs: the largest and the smallest int64 as element ids (numbers kept
+// apart across kinds, see idShifts).
+func extremeIDs() []Data {
+	var out []Data
+	for _, c := range []struct {
+		name                 string
+		n1, n2, w, w2, r, r2 int64
+	}{
+		{"max", 1<<63 - 1, 1<<63 - 2, 1<<63 - 3, 1<<63 - 4, 1<<63 - 5, 1<<63 - 6},
+		{"min", -1 << 63, -1<<63 + 1, -1<<63 + 2, -1<<63 + 3, -1<<63 + 4, -1<<63 + 5},
+	} {
+		for _, mp := range []int{0, 1} {
+			d := Data{Family: "degenerate", Name: fmt.Sprintf("degenerate/extreme-ids/%s/meta%d", c.name, mp)}
+			a, b := mkNode(11, true, []Tag{{"name", "N"}}, metaPat(mp, 1)), mkNode(12, true, nil, metaPat(mp, 2))
+			a.ID, b.ID = c.n1, c.n2
+			d.Nodes = append(d.Nodes, a, b)
+			d.Ways = append(d.Ways,
+				mkWay(c.w, []Tag{{"highway", "path"}}, metaPat(mp, 3), c.n1, c.n2),
+				mkWay(c.w2, []Tag{{"building", "yes"}}, metaPat(mp, 4), c.n1, c.n2, c.n1))
+			d.Rels = append(d.Rels,
+				DRel{ID: c.r, Tags: []Tag{{"type", "route"}, {"route", "bus"}}, Meta: metaPat(mp, 5), Members: []DMember{
+					{Type: "way", Ref: c.w, Role: "w"}, {Type: "node", Ref: c.n2, Role: "stop"}}},
+				DRel{ID: c.r2, Tags: []Tag{{"type", "network"}}, Meta: metaPat(mp, 6), Members: []DMember{
+					{Type: "relation", Ref: c.r, Role: "line"}, {Type: "way", Ref: c.w2, Role: "depot"}}})
+			out = append(out, d)
+		}
+	}
+	return out
+}
+
+// ---- boundary audit: value classes outside the alphabets above ----
+
+// idShift moves the ids of a data set into another range; node, way and
+// relation ids (and the refs to them) get their own offset.
+type idShift struct {
+	name           string
+	node, way, rel int64
+}
+
+func uniform(name string, off int64) idShift { return idShift{name, off, off, off} }
+
+// The library keeps relation memberships in a map keyed by the packed
+// osm.FeatureID (type bits | id<<16, NOT masked). For 0 <= id < 2^44 the key is
+// unique; ids whose bits 44-47 are set, and negative ids, run into the type
+// bits, and elements of DIFFERENT kinds (or, for bit 44, ids 2^44 apart) share
+// a key: way -5 then lists the memberships of node -5 and relation -5, node
+// 2^45+5 those of relation 5. That breaks "carrying ... its relation
+// memberships" on the unchanged tree (reported by the boundary audit; see the
+// commented entries below). Until it is decided, negative ids and ids from
+// 2^44 are enumerated with the three kinds in separate number ranges (generated
+// numbers stay below 1000), which no key collision can reach; everything
+// else about such ids (feature id, properties.id, lookups of ways, nodes and
+// members) is judged as for any other id.
+var idShifts = []idShift{
+	uniform("ids-from-0", -1),              // id 1 becomes 0
+	uniform("ids-around-2^31", 1<<31-2),    // 2^31-1, 2^31, ...
+	uniform("ids-around-2^32", 1<<32-2),    // 2^32-1, 2^32, ...
+	uniform("ids-around-2^40", 1<<40-2),    // 2^40-1 is the last id that fits the 40 ref bits
+	uniform("ids-above-2^43", 1<<44-1000),  // the last ids whose packed key is still unique
+	uniform("ids-above-2^53", 1<<53+1),     // odd ids are not representable in a float64
+	uniform("ids-above-2^62", 1<<62+1<<35), //
+	{"ids-negative", -1000, -2000, -3000},  // -999.., -1999.., -2999..
+	{"ids-above-2^44", 1<<44 + 1000, 1<<44 + 2000, 1<<44 + 3000},
+	{"ids-above-2^45", 1<<45 + 1000, 1<<45 + 2000, 1<<45 + 3000},
+	{"ids-below-2^63", 1<<63 - 1 - 3999, 1<<63 - 1 - 2999, 1<<63 - 1 - 1999}, // up to 2^63-1001; 2^63-1 itself: extremeIDs
+	// ids that collide across kinds in a packed osm.FeatureID key (the defect
+	// described above, repaired in /repo by "fix: osmgeojson: relation memberships
+	// are kept by member type and id")
+	uniform("ids-negative-shared-across-kinds", -1000),
+	uniform("ids-above-2^44-shared-across-kinds", 1<<44),
+	uniform("ids-above-2^45-shared-across-kinds", 1<<45),
+}
+
+func shiftedByKind(d Data, sh idShift) Data {
+	o := Data{Name: d.Name + "/" + sh.name, Family: d.Family, Extras: d.Extras}
+	if sh.node != sh.way || sh.way != sh.rel {
+		// separate ranges only work while the generated numbers stay inside one range
+		chk := func(id int64) {
+			if id < 0 || id >= 1000 {
+				panic(fmt.Sprintf("generator: id %d of %s outside 0..999", id, d.Name))
+			}
+		}
+		for _, n := range d.Nodes {
+			chk(n.ID)
+		}
+		for _, w := range d.Ways {
+			chk(w.ID)
+			for _, x := range w.Nodes {
+				chk(x.ID)
+			}
+		}
+		for _, r := range d.Rels {
+			chk(r.ID)
+			for _, m := range r.Members {
+				chk(m.Ref)
+			}
+		}
+	}
+	for _, n := range d.Nodes {
+		n.ID += sh.node
+		o.Nodes = append(o.Nodes, n)
+	}
+	for _, w := range d.Ways {
+		w.ID += sh.way
+		nd := make([]DWayNode, len(w.Nodes))
+		for i, x := range w.Nodes {
+			x.ID += sh.node
+			nd[i] = x
+		}
+		w.Nodes = nd
+		o.Ways = append(o.Ways, w)
+	}
+	for _, r := range d.Rels {
+		r.ID += sh.rel
+		ms := make([]DMember, len(r.Members))
+		for i, m := range r.Members {
+			switch m.Type {
+			case "node":
+				m.Ref += sh.node
+			case "way":
+				m.Ref += sh.way
+			default:
+				m.Ref += sh.rel
+			}
+			ms[i] = m
+		}
+		r.Members = ms
+		o.Rels = append(o.Rels, r)
+	}
+	return o
+}
+
+// coordMap moves every located coordinate (of nodes and of inline way nodes);
+// 0,0 stays "not located". All maps are injective, so distinct nodes keep
+// distinct coordinates.
+type coordMap struct {
+	name string
+	f    func(lon, lat float64) (float64, float64)
+}
+
+var coordMaps = []coordMap{
+	{"lon0", func(lon, lat float64) (float64, float64) { return lon - 1, lat }},                                   // nodes 1 and 4 on the prime meridian
+	{"lat0", func(lon, lat float64) (float64, float64) { return lon, lat - 1 }},                                   // nodes 1, 2 and others on the equator
+	{"quadrants", func(lon, lat float64) (float64, float64) { return lon - 1.5, lat - 1.5 }},                      // the squares straddle 0,0; negative coordinates
+	{"mirrored", func(lon, lat float64) (float64, float64) { return -lon, lat }},                                  // western hemisphere, every ring's winding flipped
+	{"upper-limits", func(lon, lat float64) (float64, float64) { return 180 - (lon-1)/1000, 90 - (lat-1)/100 }},   // node 1 at 180,90
+	{"lower-limits", func(lon, lat float64) (float64, float64) { return -180 + (lon-1)/1000, -90 + (lat-1)/100 }}, // node 1 at -180,-90
+	{"decimals", func(lon, lat float64) (float64, float64) { return lon/3 + 0.1, lat/7 + 1e-7 }},                  // 15-17 significant digits
+	{"tiny", func(lon, lat float64) (float64, float64) { return lon * 1e-7, lat * 1e-7 }},                         // one unit of OSM's resolution from 0
+}
+
+func recoord(d Data, cm coordMap) Data {
+	o := Data{Name: d.Name + "/coords-" + cm.name, Family: d.Family, Rels: d.Rels, Extras: d.Extras}
+	mv := func(lon, lat float64) (float64, float64) {
+		if lon == 0 && lat == 0 {
+			return 0, 0
+		}
+		x, y := cm.f(lon, lat)
+		if x == 0 && y == 0 {
+			panic(fmt.Sprintf("generator: %s maps %v,%v of %s to 0,0", cm.name, lon, lat, d.Name))
+		}
+		return x, y
+	}
+	for _, n := range d.Nodes {
+		n.Lon, n.Lat = mv(n.Lon, n.Lat)
+		o.Nodes = append(o.Nodes, n)
+	}
+	for _, w := range d.Ways {
+		nd := make([]DWayNode, len(w.Nodes))
+		for i, x := range w.Nodes {
+			x.Lon, x.Lat = mv(x.Lon, x.Lat)
+			nd[i] = x
+		}
+		w.Nodes = nd
+		o.Ways = append(o.Ways, w)
+	}
+	return o
+}
+
+// metaValues: one field (or all) at a boundary value. Version, changeset and
+// uid: 1, around 2^31, 2^32, beyond 2^53, the largest value; timestamps: the
+// unix epoch, one second either side of it, the 19th century, sub-second
+// parts, other zones, osm.CommitInfoStart, after 2262 (outside UnixNano),
+// the last second of year 9999, one nanosecond after the zero time.
+var metaValues = []Meta{
+	{Version: 1}, {Version: 1<<31 - 1}, {Version: 1 << 31}, {Version: 1 << 62},
+	{Changeset: 1}, {Changeset: 1 << 31}, {Changeset: 1<<32 + 1}, {Changeset: 1<<53 + 1}, {Changeset: 1<<63 - 1},
+	{UID: 1}, {UID: 1 << 31}, {UID: 1<<53 + 1}, {UID: 1<<63 - 1},
+	{TSSet: true}, {TSSet: true, ZoneSec: 3600}, {TS: 1}, {TS: -1}, {TS: -3155760000},
+	{NS: 1}, {TS: 1500000000, NS: 1}, {TS: 1500000000, NS: 500000000}, {TS: 1500000000, NS: 999999999},
+	{TS: 1500000000, ZoneSec: 19800}, {TS: 1500000000, NS: 123456789, ZoneSec: -28800},
+	{TS: 1347442203}, {TS: 1347442202}, {TS: 10413792000}, {TS: 253402300799},
+	{TS: -62135596800, NS: 1}, {TS: -62135596799},
+	{Version: 1 << 31, Changeset: 1<<53 + 1, User: "u", UID: 1<<53 + 1, TS: 1500000000, NS: 1, ZoneSec: 19800},
+	{User: "only a name"},
+}
+
+// family meta-values: a node, a line way, an area way, a route, a tagged
+// multipolygon and an old-style multipolygon (emitted under its outer way's
+// identity) in one data set; element j carries metaValues[i+j].
+func genMetaValues(emit func(Data)) {
+	n := len(metaValues)
+	for i := range metaValues {
+		mv := func(j int) Meta { return metaValues[(i+j)%n] }
+		d := Data{Family: "meta-values", Name: fmt.Sprintf("meta-values/%d", i)}
+		d.Nodes = append(d.Nodes, mkNode(9, true, []Tag{{"name", "N"}}, mv(0)), mkNode(12, true, nil, mv(1)))
+		d.Ways = append(d.Ways,
+			mkWay(1, []Tag{{"highway", "path"}}, mv(2), 11, 12, 13),
+			mkWay(2, []Tag{{"building", "yes"}}, mv(3), 1, 2, 3, 4, 1),
+			mkWay(3, nil, mv(4), 13, 14),
+			mkWay(4, nil, mv(5), 5, 6, 7, 8, 5),
+			mkWay(5, []Tag{{"natural", "water"}}, mv(6), 21, 22, 23, 21))
+		d.Rels = append(d.Rels,
+			DRel{ID: 1, Tags: []Tag{{"type", "route"}, {"route", "bus"}}, Meta: mv(7), Members: []DMember{
+				{Type: "way", Ref: 1}, {Type: "way", Ref: 3}, {Type: "node", Ref: 12, Role: "stop"}}},
+			DRel{ID: 2, Tags: []Tag{{"type", "multipolygon"}, {"landuse", "forest"}}, Meta: mv(8), Members: []DMember{
+				{Type: "way", Ref: 4, Role: "outer"}}},
+			DRel{ID: 3, Tags: []Tag{{"type", "multipolygon"}}, Meta: mv(9), Members: []DMember{
+				{Type: "way", Ref: 5, Role: "outer"}}})
+		nodesFor(&d, nil, 0)
+		emit(d)
+	}
+}
+
+// family strings: one string class used as tag key, tag value, user name and
+// member role of a node, a way and a relation.
+func genStrings(emit func(Data)) {
+	long := make([]byte, 5000)
+	for i := range long {
+		long[i] = 'x'
+	}
+	longU := ""
+	for i := 0; i < 2000; i++ {
+		longU += "\u00fc"
+	}
+	strs := []string{" ", "\t", " lead", "trail ", "na\u00efve caf\u00e9", "\u65e5\u672c\u8a9e", "a\"b\\c/", "<&>'", "line\nbreak\ttab",
+		"\u2028\u2029", "\U0001F6B2", string(long), longU, "true", "null", "0", "-1"}
+	for i, s := range strs {
+		for _, empty := range []bool{false, true} {
+			d := Data{Family: "strings", Name: fmt.Sprintf("strings/%d/emptytaglists=%v", i, empty)}
+			m := Meta{Version: 2, User: s, UID: 7}
+			d.Nodes = append(d.Nodes,
+				mkNode(12, true, []Tag{{s, "v"}}, m),
+				mkNode(9, true, []Tag{{"k", s}}, Meta{User: s}),
+				mkNode(13, true, []Tag{{"source", s}}, m)) // an uninteresting key stays uninteresting whatever its value
+			d.Ways = append(d.Ways, mkWay(1, []Tag{{"highway", "path"}, {s, s}}, m, 11, 12, 13, 14))
+			d.Rels = append(d.Rels, DRel{ID: 1, Tags: []Tag{{"type", "route"}, {s, s}}, Meta: m, Members: []DMember{
+				{Type: "way", Ref: 1, Role: s}, {Type: "node", Ref: 14, Role: s}, {Type: "node", Ref: 9, Role: s + s}}})
+			if empty {
+				// present-but-empty tag lists instead of absent ones
+				d.Nodes = append(d.Nodes, mkNode(30, true, []Tag{}, m))
+				d.Ways = append(d.Ways, mkWay(2, []Tag{}, m, 14, 15))
+				d.Rels = append(d.Rels, DRel{ID: 2, Tags: []Tag{}, Meta: m, Members: []DMember{{Type: "way", Ref: 2, Role: s}}})
+			}
+			nodesFor(&d, nil, 0)
+			emit(d)
+		}
+	}
+}
+
+// family degenerate: nothing at all, empty lists, ways that visit a node twice.
+func genDegenerate(emit func(Data)) {
+	emit(Data{Family: "degenerate", Name: "degenerate/no-elements"})
+	emit(Data{Family: "degenerate", Name: "degenerate/empty-lists", Nodes: []DNode{}, Ways: []DWay{}, Rels: []DRel{}})
+	emit(Data{Family: "degenerate", Name: "degenerate/one-free-node", Nodes: []DNode{mkNode(9, true, nil, Meta{})}})
+	emit(Data{Family: "degenerate", Name: "degenerate/one-unlocated-node", Nodes: []DNode{mkNode(9, false, []Tag{{"name", "N"}}, Meta{})}})
+
+	// an osm.OSM that also holds bounds, a changeset, a note and a user
+	for _, base := range []string{"empty", "elements"} {
+		d := Data{Family: "degenerate", Name: "degenerate/with-bounds-changeset-note-user/" + base, Extras: true}
+		if base == "elements" {
+			d.Nodes = append(d.Nodes, mkNode(1, true, []Tag{{"name", "N"}}, metaPat(1, 1)), mkNode(9, true, nil, metaPat(1, 9)))
+			d.Ways = append(d.Ways, mkWay(1, []Tag{{"building", "yes"}}, metaPat(1, 1), 1, 2, 3, 4, 1))
+			d.Rels = append(d.Rels, DRel{ID: 1, Tags: []Tag{{"type", "route"}}, Meta: metaPat(1, 1), Members: []DMember{{Type: "way", Ref: 1}}})
+			nodesFor(&d, nil, 1)
+		}
+		emit(d)
+	}
+
+	// a way whose coordinates come partly from its own refs and partly from the node set
+	for _, ids := range [][]int64{{11, 12, 13}, {1, 2, 3, 4, 1}} {
+		for mask := 1; mask < 1<<len(ids)-1; mask++ {
+			for ti, tags := range [][]Tag{{{"highway", "path"}}, {{"building", "yes"}}} {
+				d := Data{Family: "degenerate", Name: fmt.Sprintf("degenerate/partly-inline/len%d/inline%b/tags%d", len(ids), mask, ti)}
+				w := mkWay(1, tags, metaPat(1, 1), ids...)
+				for i := range w.Nodes {
+					if mask&(1<<i) != 0 {
+						w.Nodes[i].Lon, w.Nodes[i].Lat = coord(w.Nodes[i].ID)
+					}
+				}
+				d.Ways = append(d.Ways, w)
+				// a node whose every reference is inline is not in the set
+				skip := map[int64]bool{}
+				for i, id := range ids {
+					if mask&(1<<i) != 0 {
+						skip[id] = true
+					}
+				}
+				for i, id := range ids {
+					if mask&(1<<i) == 0 {
+						delete(skip, id)
+					}
+				}
+				nodesFor(&d, skip, 1)
+				emit(d)
+			}
+		}
+	}
+
+	// a way without node refs: alone, as a route member, as an outer
+	for _, tags := range [][]Tag{nil, {{"highway", "path"}}, {{"building", "yes"}}} {
+		for ctx := 0; ctx < 4; ctx++ {
+			d := Data{Family: "degenerate", Name: fmt.Sprintf("degenerate/way-without-refs/tags%d/ctx%d", len(tags), ctx)}
+			d.Ways = append(d.Ways, DWay{ID: 1, Tags: tags, Meta: metaPat(1, 1)}, mkWay(2, []Tag{{"highway", "path"}}, metaPat(1, 2), 11, 12))
+			d.Nodes = append(d.Nodes, mkNode(9, true, nil, metaPat(1, 9)))
+			switch ctx {
+			case 1:
+				d.Rels = append(d.Rels, DRel{ID: 1, Tags: []Tag{{"type", "route"}}, Members: []DMember{{Type: "way", Ref: 1}}})
+			case 2:
+				d.Rels = append(d.Rels, DRel{ID: 1, Tags: []Tag{{"type", "route"}}, Members: []DMember{{Type: "way", Ref: 1}, {Type: "way", Ref: 2}}})
+			case 3:
+				d.Rels = append(d.Rels, DRel{ID: 1, Tags: []Tag{{"type", "multipolygon"}, {"landuse", "forest"}}, Members: []DMember{{Type: "way", Ref: 1, Role: "outer"}}})
+			}
+			nodesFor(&d, nil, 0)
+			emit(d)
+		}
+	}
+
+	// relations without members, or with node members only
+	relTags := [][]Tag{{{"type", "route"}, {"route", "bus"}}, {{"type", "multipolygon"}, {"landuse", "forest"}},
+		{{"type", "boundary"}}, {{"type", "site"}}, nil}
+	for ti, tt := range relTags {
+		for mm := 0; mm < 3; mm++ {
+			d := Data{Family: "degenerate", Name: fmt.Sprintf("degenerate/relation-without-ways/type%d/members%d", ti, mm)}
+			r := DRel{ID: 1, Tags: tt, Meta: metaPat(1, 1)}
+			switch mm {
+			case 1:
+				r.Members = []DMember{}
+			case 2:
+				r.Members = []DMember{{Type: "node", Ref: 9, Role: "stop"}, {Type: "node", Ref: 12}}
+			}
+			d.Rels = append(d.Rels, r)
+			d.Nodes = append(d.Nodes, mkNode(9, true, nil, metaPat(1, 9)))
+			d.Ways = append(d.Ways, mkWay(1, []Tag{{"highway", "path"}}, metaPat(1, 1), 11, 12))
+			nodesFor(&d, nil, 0)
+			emit(d)
+		}
+	}
+
+	// ways that visit a node more than once
+	shapes := []struct {
+		name string
+		ids  []int64
+	}{
+		{"twice-in-a-row", []int64{1, 1, 2}},
+		{"twice-at-the-end", []int64{1, 2, 2}},
+		{"back-and-forth", []int64{1, 2, 3, 2}},
+		{"only-one-node-twice", []int64{1, 1}},
+		{"ring-with-a-spur", []int64{1, 2, 3, 4, 2, 1}},
+		{"ring-listed-twice", []int64{1, 2, 3, 4, 1, 2, 3, 4, 1}},
+	}
+	tagSets := [][]Tag{{{"highway", "path"}}, {{"building", "yes"}}, nil}
+	for _, sh := range shapes {
+		var distinct []int64
+		seen := map[int64]bool{}
+		for _, id := range sh.ids {
+			if !seen[id] {
+				seen[id] = true
+				distinct = append(distinct, id)
+			}
+		}
+		for ti, tags := range tagSets {
+			for mask := 0; mask < 1<<len(distinct); mask++ {
+				for _, inline := range []bool{false, true} {
+					for _, inRoute := range []bool{false, true} {
+						if inRoute && inline {
+							continue
+						}
+						missing := map[int64]bool{}
+						for i, id := range distinct {
+							if mask&(1<<i) != 0 {
+								missing[id] = true
+							}
+						}
+						d := Data{Family: "degenerate", Name: fmt.Sprintf("degenerate/repeated-node/%s/tags%d/missing%b/inline=%v/route=%v", sh.name, ti, mask, inline, inRoute)}
+						w := mkWay(1, tags, metaPat(1, 1), sh.ids...)
+						if inline {
+							for i := range w.Nodes {
+								if !missing[w.Nodes[i].ID] {
+									w.Nodes[i].Lon, w.Nodes[i].Lat = coord(w.Nodes[i].ID)
+								}
+							}
+							missing = map[int64]bool{}
+							for _, id := range distinct {
+								missing[id] = true
+							}
+						}
+						d.Ways = append(d.Ways, w)
+						if inRoute {
+							d.Ways = append(d.Ways, mkWay(2, nil, metaPat(1, 2), sh.ids[len(sh.ids)-1], 11))
+							d.Rels = append(d.Rels, DRel{ID: 1, Tags: []Tag{{"type", "route"}, {"route", "hiking"}}, Meta: metaPat(1, 1),
+								Members: []DMember{{Type: "way", Ref: 2}, {Type: "way", Ref: 1}}})
+						}
+						nodesFor(&d, missing, 0)
+						emit(d)
+					}
+				}
+			}
+		}
+	}
+}
+
+// family oriented: route members that carry an Orientation (annotated
+// relations); the joined line must still hold every segment.
+func genOriented(emit func(Data)) {
+	ways := [][]int64{{11, 12}, {12, 13, 14}, {14, 15}}
+	patterns := [][]int{{-1, -1, -1}, {1, 1, 1}, {-1, 0, 1}}
+	for _, dirs := range []int{0, 0b010, 0b111, 0b101} {
+		for pi, perm := range perms(3) {
+			for oi, pat := range patterns {
+				d := Data{Family: "oriented", Name: fmt.Sprintf("oriented/dirs%b/perm%d/orient%d", dirs, pi, oi)}
+				for j, ids := range ways {
+					if dirs&(1<<j) != 0 {
+						ids = rev(ids)
+					}
+					var tags []Tag
+					if j == 1 {
+						tags = []Tag{{"highway", "primary"}}
+					}
+					d.Ways = append(d.Ways, mkWay(int64(j+1), tags, metaPat(j, int64(j+1)), ids...))
+				}
+				rel := DRel{ID: 1, Tags: []Tag{{"type", "route"}, {"route", "bus"}}, Meta: metaPat(1, 1)}
+				for _, j := range perm {
+					rel.Members = append(rel.Members, DMember{Type: "way", Ref: int64(j + 1), Orientation: pat[j]})
+				}
+				d.Rels = append(d.Rels, rel)
+				nodesFor(&d, nil, 2)
+				emit(d)
+			}
+		}
+	}
+}
+
+// family long: list lengths beyond one-byte counts - a way of 128 / 300
+// nodes, a route over 130 ways, a relation of 300 members, a node in 130
+// relations and listed 150 times by one of them, 130 tags on one element.
+func genLong(quick bool, emit func(Data)) {
+	lens := []int{128, 300}
+	for _, n := range lens {
+		for _, missingEvery := range []int{0, 7} {
+			d := Data{Family: "long", Name: fmt.Sprintf("long/way%d/missing-every%d", n, missingEvery)}
+			ids := make([]int64, n)
+			miss := map[int64]bool{}
+			for i := range ids {
+				ids[i] = int64(11 + i)
+				if missingEvery != 0 && i%missingEvery == 3 {
+					miss[ids[i]] = true
+				}
+			}
+			d.Ways = append(d.Ways, mkWay(1, []Tag{{"highway", "path"}}, metaPat(1, 1), ids...))
+			nodesFor(&d, miss, 0)
+			emit(d)
+		}
+	}
+	const k = 130
+	for order := 0; order < 4; order++ {
+		d := Data{Family: "long", Name: fmt.Sprintf("long/route%d/order%d", k, order)}
+		var seq []int
+		switch order {
+		case 0:
+			for j := 0; j < k; j++ {
+				seq = append(seq, j)
+			}
+		case 1:
+			for j := k - 1; j >= 0; j-- {
+				seq = append(seq, j)
+			}
+		case 2:
+			for j := 0; j < k; j += 2 {
+				seq = append(seq, j)
+			}
+			for j := 1; j < k; j += 2 {
+				seq = append(seq, j)
+			}
+		default:
+			for j := 0; j < k; j++ {
+				seq = append(seq, (j*37)%k) // 37 and 130 are coprime: every way once
+			}
+		}
+		for j := 0; j < k; j++ {
+			ids := []int64{int64(11 + j), int64(12 + j)}
+			if (j+order)%3 == 0 {
+				ids = rev(ids)
+			}
+			d.Ways = append(d.Ways, mkWay(int64(j+1), nil, metaPat(j, int64(j+1)), ids...))
+		}
+		rel := DRel{ID: 1, Tags: []Tag{{"type", "route"}, {"route", "train"}}, Meta: metaPat(1, 1)}
+		for _, j := range seq {
+			rel.Members = append(rel.Members, DMember{Type: "way", Ref: int64(j + 1)})
+		}
+		d.Rels = append(d.Rels, rel)
+		nodesFor(&d, nil, 0)
+		emit(d)
+	}
+	{
+		d := Data{Family: "long", Name: "long/memberships"}
+		d.Nodes = append(d.Nodes, mkNode(9, true, nil, metaPat(1, 9)), mkNode(12, true, nil, metaPat(1, 12)))
+		d.Ways = append(d.Ways, mkWay(1, []Tag{{"highway", "path"}}, metaPat(1, 1), 11, 12, 13))
+		big := DRel{ID: 200, Tags: []Tag{{"type", "site"}}, Meta: metaPat(1, 200)}
+		for i := 0; i < 150; i++ {
+			big.Members = append(big.Members, DMember{Type: "node", Ref: 12, Role: fmt.Sprintf("r%d", i)}, DMember{Type: "way", Ref: 1, Role: fmt.Sprintf("w%d", i%3)})
+		}
+		d.Rels = append(d.Rels, big)
+		for i := 0; i < 130; i++ {
+			d.Rels = append(d.Rels, DRel{ID: int64(1 + i), Tags: []Tag{{"type", "collection"}, {"n", fmt.Sprint(i)}}, Meta: metaPat(i, int64(1+i)),
+				Members: []DMember{{Type: "node", Ref: 9, Role: fmt.Sprint(i)}, {Type: "way", Ref: 1}}})
+		}
+		nodesFor(&d, nil, 0)
+		emit(d)
+	}
+	{
+		d := Data{Family: "long", Name: "long/tags"}
+		var tags []Tag
+		for i := 0; i < 130; i++ {
+			tags = append(tags, Tag{fmt.Sprintf("key%03d", 129-i), fmt.Sprintf("value%d", i)})
+		}
+		d.Nodes = append(d.Nodes, mkNode(12, true, tags, metaPat(1, 12)))
+		d.Ways = append(d.Ways, mkWay(1, tags, metaPat(1, 1), 11, 12, 13))
+		d.Rels = append(d.Rels, DRel{ID: 1, Tags: append([]Tag{{"type", "route"}}, tags...), Meta: metaPat(1, 1), Members: []DMember{{Type: "way", Ref: 1}}})
+		nodesFor(&d, nil, 0)
+		emit(d)
+	}
+	_ = quick
 }
